@@ -28,6 +28,8 @@ CPPFLAGS = ["-U", "__GNUC__", "-U", "__GNUC_MINOR__", "-D", "__STDC_NO_ATOMICS__
 STAGE2 = os.path.join(vlib.WORK, "stage2", "cproc-qbe")
 RUN_TIMEOUT = 30
 UNINIT_PAT = re.compile(r"uninitialised")
+# values of the `bin` dimension that run the hooks build with map.c's hash function substituted (H11)
+HASH_MODES = {"hash_xor": "xor:2654435769", "hash_const": "const", "hash_low2": "low2"}
 
 # ----------------------------------------------------------------------------------------------
 # state shared with forked workers (set before the pool is created)
@@ -71,6 +73,8 @@ def render_env(env, job):
     if env["extra"] == "noise":
         e.update(NOISE)
     exe = G["bins"][env["bin"]]
+    if env["bin"] in HASH_MODES:
+        e["CPROC_VERIF_HASH"] = HASH_MODES[env["bin"]]
     argv0 = {"abs": exe, "base": "cproc-qbe", "alias": "no such dir/cc1"}[env["argv0"]]
     src = G["src"][job["i"]]
     args = ["-t", job["t"]] + (["-E"] if job["m"] == "E" else [])
@@ -335,7 +339,8 @@ def env_id(row, which="main"):
 
 def tlc_envs(ctx, cfg, rot=0, stage2=False):
     cov = cfg == "MC_Pure_pairwise.cfg" and rot < 7
-    r = ctx.tlc_must_pass("PureEnv", cfg, workers=2, env={"C20_ROT": rot, "C20_STAGE2": "1" if stage2 else "0"}, timeout=600, coverage=cov)
+    r = ctx.tlc_must_pass("PureEnv", cfg, workers=2, timeout=600, coverage=cov,
+                          env={"C20_ROT": rot, "C20_STAGE2": "1" if stage2 else "0", "C20_HASHBINS": "1" if cfg == "MC_Pure_pairwise.cfg" else "0"})
     if cov:
         ctx.check_coverage(r)
     rows = []
@@ -517,7 +522,7 @@ def ids_model(ctx):
 
 def ids_flow_b(ctx, inputs):
     """Run the hooks build on inputs, keep the H10 `id` events, validate with Trace_Ids."""
-    hooks = my_build(ctx, "hooks")
+    hooks = G["hooks"]
     sel = [it for it in inputs if it["m"] == "c"]
     if ctx.quick:
         sel = [it for k, it in enumerate(sel) if it["name"].startswith("corpus:") or k % 5 == 0]
@@ -583,21 +588,22 @@ DENY_IMPORTS = {"getenv", "secure_getenv", "setlocale", "newlocale", "uselocale"
 
 
 def scan_structure(ctx, plain):
-    # (1) nothing but map.c looks inside a table; mapfree is only ever given NULL or free
+    # (1) informational (evidence only): who iterates a table.  Whether table order is OBSERVABLE is decided dynamically by the
+    #     hash-substituted binaries of the `bin` dimension (same bytes under every hash function), not by this listing.
+    notes = []
     for f in sorted(glob.glob(os.path.join(vlib.REPO, "*.[ch]"))):
         base = os.path.basename(f)
         src = open(f, errors="replace").read()
         src_nc = re.sub(r"/\*.*?\*/", lambda m: re.sub(r"[^\n]", " ", m.group(0)), src, flags=re.S)
         for ln, line in enumerate(src_nc.split("\n"), 1):
             if base not in ("map.c",) and re.search(r"(->|\.)\s*(keys|vals)\b", line):
-                ctx.violation("mapiter:%s" % base, "%s:%d reaches into a hash table's slot arrays (table order would become observable): %s"
-                              % (base, ln, line.strip()), {"file": base, "line": ln})
+                notes.append("%s:%d touches table slots: %s" % (base, ln, line.strip()[:80]))
             m = re.search(r"\bmapfree\s*\(([^;]*)\)\s*;", line)
             if m and base != "map.c" and base != "util.h":
                 arg = m.group(1).rsplit(",", 1)[-1].strip()
                 if arg not in ("NULL", "free", "0"):
-                    ctx.violation("mapiter:%s:mapfree-callback" % base, "%s:%d mapfree is given a callback (%s) that runs in table order"
-                                  % (base, ln, arg), {"file": base, "line": ln})
+                    notes.append("%s:%d mapfree callback %s runs in table order" % (base, ln, arg))
+    ctx.cov["table_iteration_sites_outside_map.c(informational)"] = notes
     # (2) the compiler proper imports nothing that observes the environment
     p = subprocess.run(["nm", "-u", "-D", os.path.join(plain, "cproc-qbe")], stdout=subprocess.PIPE, stderr=subprocess.PIPE, text=True)
     if p.returncode != 0:
@@ -696,6 +702,9 @@ def replay(ctx, path):
         return 1
     plain = my_build(ctx, "plain")
     G["bins"] = {"ref": os.path.join(plain, "cproc-qbe")}
+    hooks = my_build(ctx, "hooks")
+    for hb in HASH_MODES:
+        G["bins"][hb] = os.path.join(hooks, "cproc-qbe")
     s2, _ = stage2_binary(ctx)
     if s2:
         G["bins"]["stage2"] = s2
@@ -737,7 +746,18 @@ def run(ctx):
         "output or a diagnostic. Structural: MapPure (hash-independent lookups) replayed into map.c with arbitrary hashes; Ids.tla bound by "
         "H10 hook traces.")
     # --- design-level model checks of the monitor and the generator ------------------------------------------------
-    s2exe, s2why = stage2_binary(ctx)
+    # all binaries must come from ONE state of the sources (other engineers commit to /repo while checks run)
+    for attempt in range(4):
+        h0 = vlib.repo_hash()
+        s2exe, s2why = stage2_binary(ctx)
+        G["plain"] = my_build(ctx, "plain")
+        G["hooks"] = my_build(ctx, "hooks")
+        if vlib.repo_hash() == h0:
+            break
+        print("note: sources changed while building; rebuilding", flush=True)
+    else:
+        raise vlib.MachineryError("sources under %s keep changing; cannot build a consistent set of binaries" % vlib.REPO)
+    ctx.cov["sources_hash"] = h0
     stage2 = s2exe is not None
     r = ctx.tlc_must_pass("Pure", "MC_Pure_monitor.cfg", workers=2, coverage=True, timeout=600)
     ctx.check_coverage(r)
@@ -753,12 +773,14 @@ def run(ctx):
     envs.update(dict(extra_arrays))
     phase("tlc_envs_and_monitor")
     # --- builds, scratch -------------------------------------------------------------------------------------------------
-    plain = my_build(ctx, "plain")
+    plain = G["plain"]
     G["bins"] = {"ref": os.path.join(plain, "cproc-qbe")}
+    for hb in HASH_MODES:
+        G["bins"][hb] = os.path.join(G["hooks"], "cproc-qbe")
     if stage2:
         G["bins"]["stage2"] = s2exe
     else:
-        ctx.assumptions.append("binary dimension skipped (only the reference-built binary was run): %s" % s2why)
+        ctx.assumptions.append("self-built binary skipped (reference-built binary and its hash-substituted variants were run): %s" % s2why)
     ctx.cov["binary_dimension"] = sorted(G["bins"])
     G["launch"] = vlib.cc_link([os.path.join(vlib.VERIF, "harness/c20_launch.c")], ctx.path("c20_launch"))
     G["outdir"] = ctx.path("out")
